@@ -185,3 +185,40 @@ CONTRACTS.append(Contract(
                        invariant=[('one-element-per-item-so-far', 'len(array_xml) == _i')])},
     ensures=[('a-QUALIFIER-element', 'isinstance(result, _cim_xml.QUALIFIER)')],
     raises={}))
+
+# ---- decoder side: every attribute of the element arrives in the constructed object, with the DTD defaults
+TNODE = TupleOf(Str, MapOf('str', 'str'), ListOf(('tuple', 'str', ('ref', 'dict'), ('ref', 'list'))))
+check_node_q = Contract(P + 'check_node', raises={'CIMXMLParseError': Raises()},
+                        ensures=[('required-attributes-present', "'NAME' in tup_tree[1] and 'TYPE' in tup_tree[1]")],
+                        notes='proved under C02 for the QUALIFIER line (check_node[QUALIFIER line])')
+unpack_value_c = Contract(P + 'unpack_value', returns=Opt(Ref('value')), raises={'CIMXMLParseError': Raises()}, trusted=True)
+unpack_boolean_c = Contract(P + 'unpack_boolean', returns=Opt(Bool), raises={'CIMXMLParseError': Raises()},
+                            ensures=[('the-DTD-spellings-decode-to-their-value',
+                                      "implies(data == 'true' or data == 'TRUE', result is True) and "
+                                      "implies(data == 'false' or data == 'FALSE', result is False)")],
+                            notes='proved under C02')
+A = 'caller_tup_tree[1]'
+
+
+def flavor(arg, attr, default):
+    dv = 'True' if default else 'False'
+    return (f"implies({attr!r} not in {A}, {arg} is {dv}) and "
+            f"implies({attr!r} in {A} and {A}[{attr!r}] == 'true', {arg} is True) and "
+            f"implies({attr!r} in {A} and {A}[{attr!r}] == 'false', {arg} is False)")
+
+
+qualifier_init_c = Contract(
+    O + 'CIMQualifier.__init__', trusted=True, raises={'TypeError': Raises(), 'ValueError': Raises()},
+    requires=[('name-and-type-from-the-attributes', f"name == {A}['NAME'] and type == {A}['TYPE']"),
+              ('PROPAGATED-default-false', flavor('propagated', 'PROPAGATED', False)),
+              ('OVERRIDABLE-default-true', flavor('overridable', 'OVERRIDABLE', True)),
+              ('TOSUBCLASS-default-true', flavor('tosubclass', 'TOSUBCLASS', True)),
+              ('TOINSTANCE-default-false', flavor('toinstance', 'TOINSTANCE', False)),
+              ('TRANSLATABLE-default-false', flavor('translatable', 'TRANSLATABLE', False))])
+CONTRACTS.append(Contract(
+    P + 'parse_qualifier', params={'self': TP, 'tup_tree': TNODE},
+    callees={'check_node': check_node_q, 'unpack_value': unpack_value_c, 'unpack_boolean': unpack_boolean_c,
+             'CIMQualifier.__init__': qualifier_init_c},
+    opaque=['CIMQualifier'],
+    ensures=[('a-CIMQualifier', 'isinstance(result, CIMQualifier)')],
+    raises={'CIMXMLParseError': Raises()}))
